@@ -24,7 +24,7 @@ func init() {
 	expectedProbes["C05"] = []string{"c05.required_invalid", "c05.permitted_invalid", "c05.sample_node", "c05.row_dropped", "c05.interleave_dups", "c05.label", "c05.condition_false_branch"}
 }
 
-var c05Quals = []string{"q", "", "q\x00", "r", "\xff", "a.b", "\x00\x01", "q\nr"}
+var c05Quals = []string{"q", "", "q\x00", "r", "\xff", "a.b", "\x00\x01", "q\nr", "2q"}
 var c05Vals = []string{"v", "", "\x00", "\xff\xfe", "abc", "ab", "a.c", "12345678", "v1", "v2", "x(y", "[z]", "a\nc", "\n"}
 var c05Keys = []string{"a", "a\x00", "ab", "b", "\x00", "\xff", "row.1", "row-2", "row\n1"}
 
@@ -38,7 +38,7 @@ func buildFilterTable(r *Run, w *BTWorld, tbl string, fams []string, d *draws) (
 		nCells := 1 + d.n(7)
 		for c := 0; c < 8; c++ {
 			m := &btpb.Mutation{Mutation: &btpb.Mutation_SetCell_{SetCell: &btpb.Mutation_SetCell{
-				FamilyName: fams[d.n(len(fams))], ColumnQualifier: []byte(c05Quals[d.w(5, 2, 2, 3, 1, 1, 1, 2)]),
+				FamilyName: fams[d.n(len(fams))], ColumnQualifier: []byte(c05Quals[d.w(5, 2, 2, 3, 1, 1, 1, 2, 3)]),
 				TimestampMicros: int64(1+d.n(4)) * 1000, Value: []byte(c05Vals[d.n(len(c05Vals))])}}}
 			if c < nCells {
 				muts = append(muts, m)
@@ -205,7 +205,7 @@ func runC05(r *Run) {
 	cfg := r.T.S("cfg")
 	engine := pickEngine(r, cfg)
 	nf := 1 + cfg.Intn(3)
-	fams := []string{"f1", "f2", "f3"}[:nf]
+	fams := []string{"f1", "f12", "f3"}[:nf] // f1+"2q" and f12+"q" concatenate to the same bytes
 	clk := NewClock(1_700_000_000_000_000, 1_700_000_000_000_000_000)
 	simRng = r.T.S("rng")
 	defer func() { simRng = nil }()
